@@ -154,6 +154,12 @@ static void enumerate(void) {
 	static const int IDS[] = {BN_P256, SM9_P256};
 #elif FP_PRIME == 381
 	static const int IDS[] = {B12_P381};
+#elif FP_PRIME == 446 && defined(FP_QNRES) /* the twist constants of the BLS12 curves at 446 and 638 bits assume the tower over u^2 = -1, xi = 1 + u, i.e. a build with FP_QNRES */
+	static const int IDS[] = {B12_P446};
+#elif FP_PRIME == 446
+	static const int IDS[] = {BN_P446};
+#elif FP_PRIME == 638 && defined(FP_QNRES)
+	static const int IDS[] = {B12_P638};
 #else
 	static const int IDS[] = {0};
 #endif
